@@ -869,7 +869,7 @@ def html_run(case):
                 if m.start() != pos:
                     return {"unparsed": line[:200]}
                 pos = m.end()
-                spans.append([m.group(1), m.group(2), _html.unescape(m.group(4))])
+                spans.append([m.group(1), m.group(2), m.group(4)])      # the markup as emitted (escaped)
             if pos != len(line):
                 return {"unparsed": line[:200]}
             rows.append(spans)
@@ -978,7 +978,7 @@ PALETTE = [
 
 class C04(core.Check):
     pid = "C04"
-    gen_modules = []
+    gen_modules = ["attrspec_escape"]
     model_targets = ["theories/Model/TermRef.vo", "theories/Model/DrawScreen.vo", "theories/Model/HtmlGen.vo"]
     prop_file = "theories/Properties/C04.v"
     extract_v = "Extract/C04X.v"
@@ -1006,14 +1006,17 @@ class C04(core.Check):
                   "blank, cursor, no scrolling, for every history of draws, clear() and frames abandoned by a mid-draw SIGWINCH "
                   "(partial_history_paints, partial_history_keeps_sync); (html_exact) the HTML back-end's "
                   "spans carry exactly the canvas text row by row with at most one one-character span swapped, for every "
-                  "canvas and cursor; (visual_colours) the colour of every kind (true, high, basic, default) spelled out; "
+                  "canvas and cursor; (html_markup_reads_back) reading the html.escape'd markup back gives the canvas text; "
+                  "(html_cursor_cell) with the cursor on a canvas cell exactly one span is highlighted and it is the "
+                  "character covering the cursor column; spec_to_sgr is _attrspec_to_escape translated from the source on every "
+                  "run (py2v), so sgr_means_visual_attribute is re-checked against the code; (visual_colours) the colour of every kind (true, high, basic, default) spelled out; "
                   "(row_cells_is_threaded) zero-width (combining) characters and C0 control characters (dropped under UTF-8, '?' "
                   "under narrow encodings) are covered by all of the above except as the first character of a run - the "
-                  "reference terminal joins a zero-width character to the character before the cursor.  NOT proved, "
-                  "statement kept (draw_paints_any_text_full, formerly refuted, witness kept in the corpus): runs that "
-                  "start with a zero-column character.  Correspondence/oracle only: everything above on the real code (exact token streams, all "
+                  "reference terminal joins a zero-width character to the character before the cursor.  REFUTED with a "
+                  "machine-checked witness replayed on the implementation (draw_paints_any_text_full, known finding): a "
+                  "bottom row whose last run holds no columns.  Correspondence/oracle only: everything above on the real code (exact token streams, all "
                   "five colour depths, utf-8/ascii/iso8859-1, widgets), partial display with an origin below row 0, and for "
-                  "the HTML back-end the escaping, the colour strings and the position of the highlighted cell.")
+                  "the HTML back-end the colour strings.")
     level_note = ("Trusted: Coq kernel; the hand-written model (tied by exact correspondence, not proved against Python); "
                   "TermRef.v as the definition of 'VT100/xterm-compatible' for the modelled subset (cross-checked against a "
                   "second, independently parsed Python interpreter on real and random streams); the harness decoding of "
@@ -1028,6 +1031,8 @@ class C04(core.Check):
             "frame wrote tokens; distinct by hash of (case, outcome)")
     trusted_base = [
         "Coq 8.16.1 kernel (coqc; vm_compute only in closed examples)",
+        "tools/py2v translator + tools/py2v/mods/attrspec_escape.py (f-strings of _attrspec_to_escape -> SGR parameter lists; "
+        "the body of spec_to_sgr is regenerated from _raw_display_base.py on every run)",
         "hand-written Model/DrawScreen.v and Model/HtmlGen.v (validated by the exact token / span correspondence on every case, "
         "not proved against Python)",
         "Model/TermRef.v as the meaning of a VT100/xterm-compatible terminal for the modelled subset "
@@ -1423,7 +1428,7 @@ class C04(core.Check):
                     cells.append((a, 0, rng.choice("\x01\x1f\t"), 0))      # a C0 control character: no column
                     continue
                 else:
-                    ch, w = rng.choice("abcxyzXYZ01._-<&"), 1
+                    ch, w = rng.choice("abcxyzXYZ01._-<&>\"'"), 1
             else:
                 if rng.random() < 0.25:
                     cs = rng.choice([0, 0, 1, 1, 2])
@@ -1439,7 +1444,7 @@ class C04(core.Check):
                 elif r < 0.23 and controls:
                     ch = rng.choice("\x01\x1f")                              # painted as "?" (one column)
                 else:
-                    ch = rng.choice("abcxyzXYZ01._-<&")
+                    ch = rng.choice("abcxyzXYZ01._-<&>\"'")
             cells.append((a, cs, ch, w))
             col += w
         if trailing:
